@@ -171,7 +171,12 @@ func buildDecorator(spec DecSpec, bar, side, ord int) decor.Decorator {
 	case DecEwmaSpeed:
 		d = decor.MovingAverageSpeed(sizeUnit(spec.Style), spec.Fmt, &recAverage{bar: bar, side: side, ord: ord}, wc)
 	case DecEwmaETA:
-		d = decor.MovingAverageETA(decor.TimeStyle(spec.Style%4), &recAverage{bar: bar, side: side, ord: ord}, nil, wc)
+		if spec.Age == 1 {
+			// nil average: the library's own median-of-three window
+			d = decor.MovingAverageETA(decor.TimeStyle(spec.Style%4), nil, nil, wc)
+		} else {
+			d = decor.MovingAverageETA(decor.TimeStyle(spec.Style%4), &recAverage{bar: bar, side: side, ord: ord}, nil, wc)
+		}
 	case DecCounters:
 		d = decor.Counters(sizeUnit(spec.Style), spec.Fmt, wc)
 	case DecPercentage:
